@@ -1,6 +1,6 @@
 """C03 - value modifiers produce exactly the values the specification defines (sigma/modifiers.py, rule/detection.py)."""
 from __future__ import annotations
-import z3
+import itertools, z3
 from pyvc.api import *
 from pyvc.values import *
 from pyvc.interp import UNBOUND
@@ -297,3 +297,133 @@ class ModifierTable(Lemma):
                 "windash": "SigmaWindowsDashModifier", "minute": "SigmaTimestampMinuteModifier", "hour": "SigmaTimestampHourModifier", "day": "SigmaTimestampDayModifier",
                 "week": "SigmaTimestampWeekModifier", "month": "SigmaTimestampMonthModifier", "year": "SigmaTimestampYearModifier"}
         return [(f"modifier '{k}' is {v}", [], z3.BoolVal(table.get(k) == v)) for k, v in sorted(want.items())]
+
+
+@register
+class ApplyModifiers(Contract):
+    """SigmaDetectionItem.apply_modifiers: the modifiers are applied in the order written; a value modifier to every value separately
+    (results flattened in order), a list modifier to the whole value list; every modifier instance is told ALL modifiers applied before
+    it - value and list modifiers alike (the admissibility checks of re / cidr / exists depend on that)"""
+    id = "C03.SigmaDetectionItem.apply_modifiers"
+    target = "sigma.rule.detection:SigmaDetectionItem.apply_modifiers"
+    props = ("C03",)
+    cases = tuple("".join(t) for n in (0, 1, 2, 3) for t in itertools.product("VL", repeat=n))
+    assumed = ["SigmaModifier.apply of the individual modifiers is abstract here (own contracts): V = a value modifier producing two values per value, L = a list modifier producing one value for the list"]
+
+    def setup(self, E):
+        def s_apply(I, so, a, k):
+            log = I.E._c03_log
+            before = [getattr(c, "info", c).name if hasattr(c, "info") else str(c) for c in so.fields["applied_modifiers"]]
+            kind = "V" if so.cls.name == "SigmaContainsModifier" else "L"
+            log.append((kind, a[0], before, so.fields.get("detection_item"), so.fields.get("source")))
+            if kind == "V":
+                out = [SObj("Val", {}, ghost={"from": a[0], "j": j, "step": len(log)}) for j in (0, 1)]
+            else:
+                out = [SObj("Val", {}, ghost={"from": list(a[0]), "j": 0, "step": len(log)})]
+            log[-1] = log[-1] + (out,)
+            return out
+        E.summaries["sigma.modifiers:SigmaModifier.apply"] = s_apply
+
+    def args(self, I, case):
+        idx = I.E.index
+        I.E._c03_log = []
+        mods = [ClassRef(idx.lookup("sigma.modifiers:SigmaContainsModifier" if ch == "V" else "sigma.modifiers:SigmaAllModifier")) for ch in case]
+        vals = [SObj("Val", {}, ghost={"orig": i}) for i in range(2)]
+        src = SObj("Source", {})
+        me = SObj(idx.lookup("sigma.rule.detection:SigmaDetectionItem"), {"modifiers": mods, "value": list(vals), "source": src}, lazy=True)
+        return {"self": me, "args": [], "vals": vals, "src": src, "case": case}
+
+    def post(self, I, inp, r):
+        c, log, case, me = I.ctx, I.E._c03_log, inp["case"], inp["self"]
+        cur = list(inp["vals"])
+        pos = 0
+        names = {"V": "SigmaContainsModifier", "L": "SigmaAllModifier"}
+        ok = True
+        for step, ch in enumerate(case):
+            n_calls = len(cur) if ch == "V" else 1
+            calls = log[pos:pos + n_calls]
+            pos += n_calls
+            want_before = [names[x] for x in case[:step]]
+            good = len(calls) == n_calls and all(cl[0] == ch and cl[2] == want_before and cl[3] is me and cl[4] is inp["src"] for cl in calls)
+            if ch == "V":
+                good = good and all(cl[1] is v for cl, v in zip(calls, cur))
+                nxt = [o for cl in calls for o in cl[5]] if good else []
+            else:
+                good = good and len(calls) == 1 and isinstance(calls[0][1], list) and len(calls[0][1]) == len(cur) and all(a is b for a, b in zip(calls[0][1], cur))
+                nxt = list(calls[0][5]) if good else []
+            c.require(good, f"modifier {step} ({'value' if ch == 'V' else 'list'} modifier): applied {'to every value in order' if ch == 'V' else 'once to the whole list'}, knowing the modifiers applied before it {want_before}, for this item and source")
+            if not good:
+                ok = False
+                break
+            cur = nxt
+        if ok:
+            c.require(pos == len(log), "no other modifier application happens")
+            got = me.fields["value"]
+            got = I.force(got) if not isinstance(got, list) else got
+            c.require(isinstance(got, list) and len(got) == len(cur) and all(a is b for a, b in zip(got, cur)), "the item's values are the results of the last modifier, flattened in order")
+
+    def frame_ok(self, I, inp, obj, name):
+        return obj is inp["self"] and name == "value"
+
+
+@register
+class ModifierApply(Contract):
+    """SigmaModifier.apply: a value of a type the modifier does not accept is rejected (SigmaTypeError); otherwise modify()'s result as a
+    list; an expansion is handled entry by entry and stays ONE expansion holding all results in order"""
+    id = "C03.SigmaModifier.apply"
+    target = "sigma.modifiers:SigmaModifier.apply"
+    props = ("C03", "C04")
+    cases = ("single", "list_result", "bad_type", "expansion2", "expansion_bad")
+    assumed = ["type_check and modify of the concrete modifier are abstract"]
+
+    def setup(self, E):
+        E.summaries["sigma.types:SigmaExpansion"] = lambda I, so, a, k: SObj("NewExpansion", {"values": a[0]})
+
+    def args(self, I, case):
+        idx = I.E.index
+        seen = []
+
+        def modify(I2, a, k):
+            v = a[0]
+            seen.append(v)
+            if v.ghost.get("many"):
+                return [SObj("Out", {}, ghost={"of": v, "j": 0}), SObj("Out", {}, ghost={"of": v, "j": 1})]
+            return SObj("Out", {}, ghost={"of": v, "j": 0})
+        me = SObj(idx.lookup("sigma.modifiers:SigmaModifier"), {"type_check": NativeFn("type_check", lambda I2, a, k: a[0].ghost.get("ok", True)), "modify": NativeFn("modify", modify), "source": None}, lazy=True)
+        mk = lambda **g: SObj("In", {}, ghost=g)
+        if case == "single":
+            val = mk()
+        elif case == "list_result":
+            val = mk(many=True)
+        elif case == "bad_type":
+            val = mk(ok=False)
+        else:
+            entries = [mk(), mk(many=True)] if case == "expansion2" else [mk(), mk(ok=False)]
+            val = SObj(idx.lookup("sigma.types:SigmaExpansion"), {"values": entries}, lazy=True)
+            val.ghost["entries"] = entries
+        return {"self": me, "args": [val], "val": val, "seen": seen, "case": case}
+
+    def post(self, I, inp, r):
+        c, case, val = I.ctx, inp["case"], inp["val"]
+        c.require(case not in ("bad_type", "expansion_bad"), "a value of an unaccepted type is rejected")
+        r = I.force(r) if not isinstance(r, list) else r
+        if case in ("single", "list_result"):
+            n = 2 if case == "list_result" else 1
+            c.require(isinstance(r, list) and len(r) == n and all(isinstance(x, SObj) and x.ghost.get("of") is val and x.ghost["j"] == j for j, x in enumerate(r)), "modify()'s result, as a list")
+        elif case == "expansion2":
+            ok = isinstance(r, list) and len(r) == 1 and isinstance(r[0], SObj) and r[0].cls == "NewExpansion"
+            c.require(ok, "one expansion is returned")
+            if ok:
+                vs = r[0].fields["values"]
+                vs = I.force(vs) if not isinstance(vs, list) else vs
+                e = val.ghost["entries"]
+                want = [(e[0], 0), (e[1], 0), (e[1], 1)]
+                c.require(isinstance(vs, list) and len(vs) == 3 and all(isinstance(x, SObj) and x.ghost.get("of") is w[0] and x.ghost["j"] == w[1] for x, w in zip(vs, want)), "holding the results of every entry, in order")
+
+    def raises(self, I, inp, exc):
+        I.ctx.require(exc_is(I, exc, "SigmaTypeError") and inp["case"] in ("bad_type", "expansion_bad"), f"SigmaTypeError exactly for an unaccepted type (got {exc_name(exc)})", kind="SAFE")
+        if inp["case"] == "bad_type":
+            I.ctx.require(not inp["seen"], "modify() is not called on a rejected value", kind="SAFE")
+
+    def frame_ok(self, I, inp, obj, name):
+        return False
